@@ -262,6 +262,20 @@ class Interp:
             return a
         return None
 
+    def row_alias(self, base):
+        """base is the value of `arr[i]` (a read of fewer indices than the array has): the row is a view, so
+        `row[k]` denotes arr[i, k] -> (Arr, index tuple), else None"""
+        if not isinstance(base, Rat) or not base.d.is_const() or len(base.n.t) != 1:
+            return None
+        (mm, c), = base.n.t.items()
+        if len(mm) != 1 or mm[0][1] != 1 or c != base.d.const_value() or not isinstance(mm[0][0], App):
+            return None
+        at = mm[0][0]
+        if at.name not in ('read', 'cell?') or at.args[0] not in self.k.arrays:
+            return None
+        idx = tuple(at.args[1:]) if at.name == 'read' else tuple(at.args[1:-1])
+        return self.k.arrays[at.args[0]], idx
+
     def as_scalar(self, v, node=None):
         if isinstance(v, Rat):
             return v
@@ -589,6 +603,11 @@ class Interp:
             return View(base.arr, axes)
         if arr is None:
             if isinstance(base, Rat):
+                ra = self.row_alias(base)
+                if ra is not None:
+                    ix = self.index_list(e.slice)
+                    if all(x[0] == 'idx' for x in ix):
+                        return self.read(ra[0], ra[1] + tuple(x[1] for x in ix))
                 # subscript of scalar-like unknown (e.g. opaque tuple)
                 i = self.ev(e.slice)
                 return Rat.atom(App('getitem', [base, self.as_scalar(i, e)]))
@@ -992,6 +1011,11 @@ class Interp:
                     self.store(base.arr, tuple(axes), v, node)
                 return
             if arr is None:
+                ra = self.row_alias(base)
+                ix = self.index_list(t.slice) if ra is not None else None
+                if ra is not None and all(x[0] == 'idx' for x in ix):
+                    self.store(ra[0], ra[1] + tuple(x[1] for x in ix), self.as_scalar(v, node), node)
+                    return
                 self.incomplete(node, 'store into %r' % (base,))
             idx = self.index_list(t.slice)
             if all(ix[0] == 'idx' for ix in idx):
